@@ -5,7 +5,8 @@
                     and given to api.npu_generate_register_command_stream; the record carries what the
                     emitted words program (OFM_BLK_*, IFM_IB_END, IFM2_IB_START, AB_START, ACC_FORMAT);
      src = "sel"    the configuration architecture_allocator.find_block_config selects (what the scheduler
-                    uses), emitted through the same generator;
+                    uses), emitted through the same generator; also, with accepted = FALSE, a block the
+                    scheduler selected while compiling a network and the generator refused ("does not fit");
      src = "find" / "try"  the ArchitectureBlockConfig returned by find_block_config / try_block_config
                     (all five layout fields observable);
      src = "corpus" a kernel operation decoded from the command stream of a compiled network.
